@@ -47,10 +47,12 @@ type env struct {
 	// lists shared by all callers (a caller may pass the same slices to concurrent calls): a zero scalar in the middle
 	listS []*secp256k1.Scalar
 	listP []*secp256k1.Point
+	// option structs shared by all callers (read-only inputs of Sign / Verify), fields left at their defaults
+	optS, optV *secec.ECDSAOptions
 }
 
 func (e *env) listFP() string {
-	s := ""
+	s := fmt.Sprintf("%+v %+v|", *e.optS, *e.optV)
 	for i := range e.listS {
 		s += fmt.Sprintf("%p %p %v %s|", e.listS[i], e.listP[i], secp256k1.VerifScalarLimbs(e.listS[i]), lib.Raw(e.listP[i]))
 	}
@@ -85,6 +87,7 @@ func newEnv() *env {
 	e.dst = []byte("verif/C20-DST")
 	e.dstA = bytes.Repeat([]byte("A"), 300)
 	e.dstB = bytes.Repeat([]byte("B"), 257)
+	e.optS, e.optV = &secec.ECDSAOptions{}, &secec.ECDSAOptions{RejectMalleable: true}
 	e.listS = []*secp256k1.Scalar{e.S1, secp256k1.NewScalar(), e.S2}
 	e.listP = []*secp256k1.Point{e.P1, lib.MkPT(ref.G().Mul(big.NewInt(5))), e.P2}
 	return e
@@ -298,6 +301,10 @@ var ops = []cop{
 	{"PreHashSchnorrMessage(tag B)", false, func(e *env) []byte {
 		return errOr(bitcoin.PreHashSchnorrMessage("verif/C20 another tag B", e.msg))
 	}, func(e *env) []byte { return ref.TaggedHash("verif/C20 another tag B", []byte("verif/C20 message")) }},
+	{"K.Sign(RFC 6979, shared default options)", true, func(e *env) []byte {
+		return errOr(e.K.Sign(secec.RFC6979SHA256(), e.digest, e.optS))
+	}, func(e *env) []byte { return e.sigDER }},
+	{"Q.Verify(sigDER, shared options)", true, func(e *env) []byte { return bb(e.Q.Verify(e.digest, e.sigDER, e.optV)) }, func(e *env) []byte { return []byte{1} }},
 	{"MultiScalarMult(shared lists, zero scalar in the middle)", true, func(e *env) []byte {
 		return new(secp256k1.Point).MultiScalarMult(e.listS, e.listP).UncompressedBytes()
 	}, func(e *env) []byte { return e.p1.Mul(e.s1).Add(e.p2.Mul(e.s2)).Uncompressed() }},
